@@ -83,8 +83,11 @@ def strip_code(src):
                 while j < n and src[j] != '"':
                     j += 2 if src[j] == "\\" else 1
                 end = min(n, j + 1)
-            # keep the quotes so that the text still reads as a literal: "    "
-            blank(i, end)
+            # keep the literal recognisable (its letters and digits) but harmless: every other
+            # character becomes `_`, so that no operator / bracket / dot inside a string is scanned
+            for k in range(i, end):
+                if out[k] != "\n" and not (out[k].isalnum() and out[k].isascii()):
+                    out[k] = "_"
             out[i] = '"'
             out[end - 1] = '"'
             i = end
@@ -292,7 +295,9 @@ def fwd_operand(code, start):
 
 
 def norm(s):
-    return re.sub(r"\s+", "", s)
+    s = re.sub(r"\s+", "", s)
+    s = re.sub(r",([)\]])", r"\1", s)          # rustfmt's trailing commas
+    return re.sub(r'"_*([A-Za-z0-9_]*?)_*"', lambda m: '"' + re.sub(r"_+", "_", m.group(1)) + '"', s)
 
 
 def clip(s, n=140):
@@ -306,7 +311,7 @@ MACROS = ("panic", "unreachable", "unimplemented", "todo", "assert", "assert_eq"
 METHODS = ("truncate", "split_at", "split_at_mut", "split_off", "drain", "remove", "swap_remove", "insert",
            "copy_from_slice", "clone_from_slice", "replace_range", "from_static", "from_secs_f64", "from_secs_f32",
            "from_utf8_unchecked", "unwrap_unchecked", "get_unchecked", "unwrap_err", "expect_err", "step_by", "chunks", "windows",
-           "chunks_exact", "rotate_left", "rotate_right", "abs", "pow", "exit")
+           "chunks_exact", "rotate_left", "rotate_right")
 # of these, only the ones that take an offset/index/constant that can be wrong matter; `insert`
 # and `remove` also name HashMap/HeaderMap methods (no panic) -- the table classifies each.
 NUM = re.compile(r"^[0-9][0-9a-zA-Z_\.]*$")
